@@ -71,6 +71,33 @@ CHECKS = {
          "Virtual-clock part runs on Go 1.26.8's runtime.", "DESIGN.md §4 C20"),
 }
 
+# additions of the ninth seeding round (DESIGN.md section 12, Round 9)
+ROUND9 = {
+ "C01": "Every forgery under 1 / 2 / 3 / 4 / 5 / 8 processors; concurrent callers that start from DefaultOptions().",
+ "C02": "A nil pool followed by a caller's pool on one options value (and back), bundles with PEM blocks of other kinds between two roots.",
+ "C03": "A signature that matches bytes parked as an unsigned member of the other response; issuer-chain headers escaped tens of thousands of times over (30 s watchdog).",
+ "C04": "tcbType values other than 0.",
+ "C05": "Trust bundles that also list the issuing CA; options values that served failing calls (incl. the level report) before the judged one.",
+ "C06": "No time set and one options value across a history of calls on the real clock; an expired issuing-CA certificate in the quote with the renewed one in the bundle.",
+ "C07": "Options values that served failing calls before the judged one.",
+ "C08": "Options from rtmr.TdxDefaultOpts for several sessions; allow-lists of up to 1000 entries holding a near miss of MR_TD.",
+ "C09": "Pairs of quotes colliding under CRC-32 / CRC-64 / Adler-32 parsed in a row; parsed messages with a field replaced by assignment.",
+ "C10": "The library's own getter against any HTTP status / Retry-After answer (45 s watchdog); leaves lacking an SGX-extension member, with collateral.",
+ "C11": "Authentic CRLs whose DER ends in a line break, blank, NUL (re-signed until the signature's last bytes fit).",
+ "C12": "The exported level report never downloads with collateral off; a getter that verifies another quote through the same options value.",
+ "C13": "Identifiers derived from the exported ones with append; tens of thousands of unknown members answered within 60 s.",
+ "C14": "Allow-list histories on one converted policy; 16000 wrongly sized entries refused within 20 s.",
+ "C15": "Requests crossing through the linuxabi helpers; devices and providers that are zero values of their types.",
+ "C16": "Concurrent callers with their own revocation lists; leaves with permuted SGX extensions in the concurrent rounds.",
+ "C17": "Entries vanishing between the listing and the index read; fresh entries whose index reads empty.",
+ "C18": "An 800 kB quote with 36000 extension members answered within 90 s; revocation faults judged at the real clock (Now nil).",
+ "C19": "Message inputs with a field wider than the wire format.",
+ "C20": "Settings as large as the type allows; millions of immediate failures in a child process with a 32 MiB stack.",
+}
+for _k, _v in ROUND9.items():
+    _c = CHECKS[_k]
+    CHECKS[_k] = (_c[0], _c[1], _c[2] + " " + _v, _c[3], _c[4])
+
 BUILT_FILE = os.path.join(os.path.dirname(__file__), "built.txt")
 
 
